@@ -1,11 +1,11 @@
 #!/bin/bash
-# tools/runall.sh [tier]: run every registered check once, print one line each
-tier=${1:-quick}
-cd /verif
-for i in $(seq -w 1 20); do
-  id=C$i
+# tools/runall.sh [tier] [ids...]: run registered checks once on /repo, print one line each (exit code, wall, peak RSS)
+tier=${1:-quick}; shift
+ids=${@:-$(seq -w 1 20 | sed 's/^/C/')}
+cd "$(dirname "$0")/.."
+for id in $ids; do
   s=$(date +%s)
-  out=$(timeout 3600 ./check.sh $id $tier 2>&1); rc=$?
+  out=$(/usr/bin/time -f "RSS_KB=%M" timeout 3600 ./check.sh $id $tier 2>&1); rc=$?
   e=$(( $(date +%s) - s ))
-  echo "$id rc=$rc ${e}s :: $(echo "$out" | grep -m1 "^$id $tier" | cut -c1-150) $(echo "$out" | grep -c '^VIOLATION') violations $(echo "$out" | grep -c '^CAP') caps"
+  echo "$id rc=$rc ${e}s rss=$(( $(echo "$out" | grep -o 'RSS_KB=[0-9]*' | tail -1 | cut -d= -f2) / 1024 ))MB :: $(echo "$out" | grep -m1 "^$id $tier" | cut -c1-150) $(echo "$out" | grep -c '^VIOLATION') violations $(echo "$out" | grep -c '^CAP') caps"
 done
